@@ -1404,3 +1404,99 @@ class EagerEinsum(Contract):
             ("input_symbols_disjoint_from_the_equation", not (fresh & set(eq))),
             ("operands_in_order_and_result_over_the_union", datas == ["data%d" % k for k in range(len(ins))] and result == ("Tensor", ("einsum", new_eq), union)),
         ]
+
+
+# ==================================================================================================
+# replays: turn a counter-model of a layout obligation into a native run of the real function
+# ==================================================================================================
+_REPLAY_HEAD = '''import sys, itertools, numpy as np
+from collections import OrderedDict
+import funsor
+from funsor import Tensor, Bint, Reals
+from funsor.tensor import align_tensor, tensor_to_funsor
+from funsor.terms import to_data
+funsor.set_backend("numpy")
+def bad(msg):
+    print("REPRODUCED:", msg); sys.exit(1)
+'''
+
+
+def _sz(m, v, cap=4):
+    x = mval(m, v, 2)
+    return max(1, min(int(x), cap)) if isinstance(x, int) else 2
+
+
+def _replay_align_tensor(self, ctx, m, st, clause):
+    if st == "number":
+        return None
+    new, old, e, ex = st
+    bs = {n: _sz(m, s) for n, s in ctx.bs.items()}
+    ns = {n: (bs[n] if n in bs else _sz(m, s)) for n, s in ctx.new_sizes.items()}
+    es = tuple(_sz(m, s) for s in ctx.es)
+    return _REPLAY_HEAD + '''
+new=%r; old=%r; bs=%r; ns=%r; es=%r; expand=%r
+shape=tuple(bs[n] for n in old)+es
+x=Tensor(np.arange(int(np.prod(shape)) if shape else 1, dtype=float).reshape(shape), OrderedDict((n,Bint[bs[n]]) for n in old))
+r=np.asarray(align_tensor(OrderedDict((n,Bint[ns[n]]) for n in new), x, expand=expand))
+exp_shape=tuple(bs[n] if n in old else (ns[n] if expand else 1) for n in new)+es
+if r.shape!=exp_shape: bad("shape %%s expected %%s" %% (r.shape, exp_shape))
+for idx in itertools.product(*[range(k) for k in exp_shape]):
+    src=tuple(idx[new.index(o)] for o in old)+tuple(idx[len(new):])
+    if r[idx]!=x.data[src]: bad("result%%s=%%s but x%%s=%%s" %% (idx, r[idx], src, x.data[src]))
+print("not reproduced"); sys.exit(0)
+''' % (tuple(new), tuple(old), bs, ns, es, ex)
+
+
+AlignTensor.replay = _replay_align_tensor
+
+
+def _replay_to_data(self, ctx, m, st, clause):
+    n, places, e = st
+    bs = {nm: _sz(m, s) for nm, s in ctx.bs.items()}
+    es = tuple(_sz(m, s) for s in ctx.es)
+    return _REPLAY_HEAD + '''
+names=%r; places=%r; bs=%r; es=%r
+shape=tuple(bs[n] for n in names)+es
+x=Tensor(np.arange(int(np.prod(shape)), dtype=float).reshape(shape), OrderedDict((n,Bint[bs[n]]) for n in names))
+r=np.asarray(to_data(x, OrderedDict(zip(names, places))))
+rb=-min(places); exp=[1]*rb
+for nm,d in zip(names,places): exp[d]=bs[nm]
+exp=tuple(exp)+es
+if r.shape!=exp: bad("shape %%s expected %%s" %% (r.shape, exp))
+for idx in itertools.product(*[range(k) for k in exp]):
+    src=tuple(idx[rb+d] for d in places)+tuple(idx[rb:])
+    if r[idx]!=x.data[src]: bad("result%%s=%%s but x%%s=%%s" %% (idx, r[idx], src, x.data[src]))
+print("not reproduced"); sys.exit(0)
+''' % (tuple(ctx.names), tuple(places), bs, es)
+
+
+TensorToData.replay = _replay_to_data
+
+
+def _replay_to_funsor(self, ctx, m, st, clause):
+    b, e, dims = st[:3]
+    bs = [_sz(m, s) if d in dims else 1 for d, s in enumerate(ctx.bs)]
+    if clause.startswith(("unnamed", "raises")):
+        bs = [_sz(m, s) for s in ctx.bs]
+    es = tuple(_sz(m, s) for s in ctx.es)
+    return _REPLAY_HEAD + '''
+bs=%r; es=%r; d2n=OrderedDict(%r)
+shape=tuple(bs)+es
+x=np.arange(int(np.prod(shape)) if shape else 1, dtype=float).reshape(shape)
+try:
+    f=tensor_to_funsor(x, Reals[es], d2n)
+except ValueError as err:
+    print("declined:", err); sys.exit(0)
+n2d=OrderedDict((n,d) for d,n in d2n.items() if n in f.inputs)
+back=np.asarray(to_data(f, n2d) if f.inputs else f.data)
+if back.size!=x.size or not np.array_equal(back.reshape(x.shape) if back.size==x.size else back, x): bad("round trip differs: %%s vs %%s" %% (back.tolist(), x.tolist()))
+for pt in itertools.product(*[range(f.inputs[n].size) for n in f.inputs]):
+    full=[0]*len(bs)
+    for n,v in zip(f.inputs, pt): full[[d for d,nn in d2n.items() if nn==n][0]+len(bs)]=v
+    if not np.array_equal(np.asarray(f(**dict(zip(f.inputs, pt))).data), x[tuple(full)]): bad("value at %%s is not x%%s" %% (dict(zip(f.inputs,pt)), tuple(full)))
+print("not reproduced"); sys.exit(0)
+''' % (bs, es, list(ctx.d2n.items()))
+
+
+TensorToFunsor.replay = _replay_to_funsor
+ToFunsorToDataRoundTrip.replay = _replay_to_funsor
